@@ -29,6 +29,12 @@ def run(ctx: Ctx):
     std_err(ctx)
     public(ctx)
     stripe(ctx)
+    from .common import index_space_lints
+
+    index_space_lints(ctx, "index-space", ['matrix/subtotals.py', 'stripe/insertion.py', 'matrix/measure.py', 'stripe/measure.py'], words=('negativeterm', 'positiveterm', 'variance', 'standarderror'))
+    from .common import no_shared_writes
+
+    no_shared_writes(ctx, "no-shared-write")
 
 
 class _Sub(ast.NodeTransformer):
